@@ -280,7 +280,10 @@ def dtw_series_from_data(data, force_pointers=False):
     if force_pointers or isinstance(data, list) or isinstance(data, set) or isinstance(data, tuple):
         ptrs = DTWSeriesPointers(len(data))
         for i in range(len(data)):
-            ptr = data[i].ctypes.data  # uniform for memoryviews and numpy
+            if hasattr(data[i], 'ctypes'):
+                ptr = data[i].ctypes.data  # uniform for memoryviews and numpy
+            else:
+                ptr = data[i].buffer_info()[0]  # array.array
             ptrs._ptrs[i] = <seq_t *> ptr
             ptrs._lengths[i] = len(data[i])
         return ptrs
